@@ -111,7 +111,13 @@ func term(v ssa.Value, depth int, onstack map[ssa.Value]bool) string {
 			switch x.X.(type) {
 			case *ssa.FieldAddr, *ssa.IndexAddr:
 				return term(x.X, depth+1, onstack)
+			case *ssa.FreeVar:
+				// a captured variable is held by reference; its load is the variable itself
+				return term(x.X, depth+1, onstack)
 			case *ssa.Alloc:
+				if pv := SpilledParam(x.X.(*ssa.Alloc)); pv != nil {
+					return term(pv, depth+1, onstack)
+				}
 				return term(x.X, depth+1, onstack)
 			}
 			return "*" + term(x.X, depth+1, onstack)
@@ -257,4 +263,64 @@ func callTerm(c *ssa.CallCommon, depth int, onstack map[ssa.Value]bool) string {
 		name = "dyn:" + term(c.Value, depth+1, onstack)
 	}
 	return name + "(" + strings.Join(args, ",") + ")"
+}
+
+// SpilledParam returns the parameter (or free variable) p when the allocation is merely the
+// heap/stack home of p: it is stored exactly once, from p, and no closure that captures it
+// writes to it. A load of such an allocation equals p.
+func SpilledParam(a *ssa.Alloc) ssa.Value {
+	if a.Referrers() == nil {
+		return nil
+	}
+	var val ssa.Value
+	n := 0
+	for _, r := range *a.Referrers() {
+		switch x := r.(type) {
+		case *ssa.Store:
+			if x.Addr == a {
+				n++
+				val = x.Val
+			}
+		case *ssa.MakeClosure:
+			fn := x.Fn.(*ssa.Function)
+			for i, b := range x.Bindings {
+				if b == a && freeVarWritten(fn, fn.FreeVars[i], 0) {
+					return nil
+				}
+			}
+		}
+	}
+	if n != 1 {
+		return nil
+	}
+	switch val.(type) {
+	case *ssa.Parameter, *ssa.FreeVar:
+		return val
+	}
+	return nil
+}
+
+func freeVarWritten(fn *ssa.Function, fv *ssa.FreeVar, depth int) bool {
+	if fv.Referrers() == nil {
+		return false
+	}
+	if depth > 4 {
+		return true
+	}
+	for _, r := range *fv.Referrers() {
+		switch x := r.(type) {
+		case *ssa.Store:
+			if x.Addr == fv {
+				return true
+			}
+		case *ssa.MakeClosure:
+			g := x.Fn.(*ssa.Function)
+			for i, b := range x.Bindings {
+				if b == fv && freeVarWritten(g, g.FreeVars[i], depth+1) {
+					return true
+				}
+			}
+		}
+	}
+	return false
 }
